@@ -9,7 +9,8 @@ From Coq Require Import List Arith Bool Lia ZArith Permutation.
 From OV Require Import Model.TreeDef Model.TreeHeap Model.TreeHeapBase Model.TreeHeapSlot Model.TreeHeapCopy
   Model.TreeHeapGrow Model.TreeHeapOps Model.TreeHeapPop Model.TreeHeapSpec Model.TreeHeapRepro
   Model.TreeHeapFinal Model.TreeHeapSer Gen.TreeArity
-  Model.TreeOpsDescr Model.TreeOpsModel Gen.TreeOps.
+  Model.TreeOpsDescr Model.TreeOpsModel Model.TreePopDescr Model.TreePopModel Model.TreeGrowDescr Model.TreeGrowModel
+  Gen.TreeOps.
 Import ListNotations.
 
 Theorem C09_arity_table_ok : tab_ok arity_tab.
@@ -201,3 +202,46 @@ Theorem C09_grow_args_is_source : forall E (g : list frac -> hstate -> res (nat 
   | Stuck => Stuck
   end.
 Proof. exact grow_args_is_descr. Qed.
+
+(* ---- the population-level code (_reproduction, _mutation, _crossover, _prune_nodes) and the selection /
+   creation part of grow, regenerated from the source, are the model's descriptions ... *)
+Theorem C09_reproduction_source_is_model : reproduction_src = repro_descr.
+Proof. reflexivity. Qed.
+
+Theorem C09_mutation_source_is_model : mutation_src = mutation_descr.
+Proof. reflexivity. Qed.
+
+Theorem C09_crossover_source_is_model : crossover_src = crossover_descr.
+Proof. reflexivity. Qed.
+
+Theorem C09_prune_source_is_model : prune_src = prune_descr.
+Proof. reflexivity. Qed.
+
+Theorem C09_grow_source_is_model : grow_src = grow_descr.
+Proof. reflexivity. Qed.
+
+(* ... and their interpretation is the model function (reproduction and crossover: for populations with as many
+   agents as trees, which is part of the invariant Inv) *)
+Theorem C09_reproduction_is_source : forall E G P picks ds,
+  length (p_agents P) = length (p_trees P) ->
+  pproj (prun E G reproduction_src (mkP (repeat PVUnset 5) P picks ds)) =
+  bind (reproduction (gp_tsize G) (gp_nrep G) picks P) (fun r => Ok (fst r, snd r, ds)).
+Proof. exact reproduction_is_descr. Qed.
+
+Theorem C09_mutation_is_source : forall E G P picks ds,
+  pproj (prun E G mutation_src (mkP (repeat PVUnset 6) P picks ds)) =
+  bind (mutation E (gp_tsize G) (gp_ratio G) (gp_nmut G) picks ds P) (fun r => Ok (fst (fst r), snd (fst r), snd r)).
+Proof. exact mutation_is_descr. Qed.
+
+Theorem C09_crossover_is_source : forall E G P picks ds,
+  length (p_agents P) = length (p_trees P) ->
+  pproj (prun E G crossover_src (mkP (repeat PVUnset 8) P picks ds)) =
+  bind (crossover (gp_tsize G) (gp_ratio G) (gp_ncross G) picks ds P) (fun r => Ok (fst (fst r), snd (fst r), snd r)).
+Proof. exact crossover_is_descr. Qed.
+
+Theorem C09_prune_is_source : forall ratio n, run_prune prune_src ratio n = prune ratio n.
+Proof. exact prune_is_descr. Qed.
+
+Theorem C09_grow_is_source : forall E d ds st,
+  run_grow E (Nat.eqb d 0) (grow E (pred d)) grow_src 3 ds st = grow E d ds st.
+Proof. exact grow_is_descr. Qed.
